@@ -57,4 +57,212 @@ theorem c17_playout_unmarshal (prev : PlayoutDelay) (hist : List Bytes) (raw : B
 example : modelM playout ⟨0xABC, 0x123⟩ ⟨1, 2⟩ = ⟨.ok [0xAB, 0xC1, 0x23], some ⟨.ok (), ⟨0xABC, 0x123⟩⟩⟩ := by decide
 example : (modelM playout ⟨4096, 0⟩ ⟨1, 2⟩).out = .err .other ∧ playoutSpec.inRange ⟨4096, 0⟩ = false := by decide
 
+/-! ### AbsSendTime -/
+
+theorem c17_abssend_marshal (v prev : AbsSendTime) :
+    marshalOk absSendSpec v (modelM absSend v prev) = true :=
+  absSend_marshal v prev
+
+theorem c17_abssend_unmarshal (prev : AbsSendTime) (hist : List Bytes) (raw : Bytes) :
+    unmarshalOk absSendSpec raw (modelU absSend prev hist raw) = true :=
+  absSend_unmarshal (absSend.history prev hist) raw
+
+/-- a 50-bit timestamp (as NewAbsSendTimeExtension produces) is sent as its low 24 bits -/
+example : modelM absSend ⟨0x3FFFF_ABCDEF⟩ ⟨1⟩ = ⟨.ok [0xAB, 0xCD, 0xEF], some ⟨.ok (), ⟨0xABCDEF⟩⟩⟩ := by decide
+
+/-! ### AbsCaptureTime -/
+
+theorem c17_abscapture_marshal (v prev : AbsCaptureTime) :
+    marshalOk absCaptureSpec v (modelM absCapture v prev) = true :=
+  absCapture_marshal v prev
+
+theorem c17_abscapture_unmarshal (prev : AbsCaptureTime) (hist : List Bytes) (raw : Bytes) :
+    unmarshalOk absCaptureSpec raw (modelU absCapture prev hist raw) = true :=
+  absCapture_unmarshal (absCapture.history prev hist) raw
+
+/-- defect 19 of DESIGN §7 on the repaired model: 16 bytes, then 8 bytes into the same receiver —
+    the offset of the first input is gone -/
+example : modelU absCapture ⟨0, none⟩ [[0,0,0,0,0,0,0,1, 0xFF,0xFF,0xFF,0xFF,0xFF,0xFF,0xFF,0xFE]]
+    [0,0,0,0,0,0,0,2] = ⟨.ok (), ⟨2, none⟩⟩ := by decide
+example : absCapture.history ⟨0, none⟩ [[0,0,0,0,0,0,0,1, 0xFF,0xFF,0xFF,0xFF,0xFF,0xFF,0xFF,0xFE]] = ⟨1, some (-2)⟩ := by
+  decide
+
+/-! ### the same, spelled out without the predicates
+
+  For each codec: (1) in-range Marshal = the layout; (2) out-of-range Marshal = error; (3) Unmarshal of
+  ≥ size bytes into ANY receiver = ok with the specified fields of the first `size` bytes, trailing bytes
+  ignored; (4) shorter input = error, receiver untouched; (5) never a panic; (6) round trip. -/
+
+theorem c17_audio_verified : Verified audio audioSpec := ⟨c17_audio_marshal, c17_audio_unmarshal⟩
+theorem c17_tcc_verified : Verified tcc tccSpec := ⟨c17_tcc_marshal, c17_tcc_unmarshal⟩
+theorem c17_playout_verified : Verified playout playoutSpec := ⟨c17_playout_marshal, c17_playout_unmarshal⟩
+theorem c17_abssend_verified : Verified absSend absSendSpec := ⟨c17_abssend_marshal, c17_abssend_unmarshal⟩
+theorem c17_abscapture_verified : Verified absCapture absCaptureSpec :=
+  ⟨c17_abscapture_marshal, c17_abscapture_unmarshal⟩
+
+theorem c17_audio_spelled :
+    (∀ l v, l ≤ 127 → audioMarshal ⟨l, v⟩ = .ok (render [(1, if v then 1 else 0), (7, l.toNat)])) ∧
+    (∀ l v, l > 127 → (audioMarshal ⟨l, v⟩).isErr = true) ∧
+    (∀ r r' raw, 1 ≤ raw.length → audioUnmarshal r raw = audioUnmarshal r' (raw.take 1) ∧
+        (audioUnmarshal r raw).res = .ok () ∧ audioSpec.decode raw = some (audioUnmarshal r raw).st) ∧
+    (∀ r raw, raw.length < 1 → (audioUnmarshal r raw).res.isErr = true ∧ (audioUnmarshal r raw).st = r) ∧
+    (∀ r raw, (audioUnmarshal r raw).res ≠ .panic) ∧
+    (∀ l v r, l ≤ 127 → audioUnmarshal r (render [(1, if v then 1 else 0), (7, l.toNat)]) = ⟨.ok (), ⟨l, v⟩⟩) := by
+  have V := c17_audio_verified
+  refine ⟨?_, ?_, ?_, ?_, ?_, ?_⟩
+  · intro l v h; exact V.layout ⟨l, v⟩ (by simpa [audioSpec] using h)
+  · intro l v h; exact V.rejects_range ⟨l, v⟩ (by simpa [audioSpec] using h)
+  · intro r r' raw h
+    cases hd : audioSpec.decode raw with
+    | none => exact absurd ((audio_decode_none raw).mp hd) (by omega)
+    | some v =>
+      have h1 := V.decodes r raw v hd
+      have h2 := V.decodes r' (raw.take 1) v (by rw [← audio_decode_take raw h]; exact hd)
+      simp only [audio] at h1 h2
+      simp [h1, h2]
+  · intro r raw h
+    match raw, h with
+    | [], _ => simp [audioUnmarshal, Res.isErr]
+  · intro r raw; exact V.unmarshal_total r raw
+  · intro l v r h; exact V.roundtrip ⟨l, v⟩ r (by simpa [audioSpec] using h) (by simpa [audioSpec] using h)
+
+theorem c17_tcc_spelled :
+    (∀ s, tccMarshal ⟨s⟩ = .ok (render [(16, s.toNat)])) ∧
+    (∀ r r' raw, 2 ≤ raw.length → tccUnmarshal r raw = tccUnmarshal r' (raw.take 2) ∧
+        (tccUnmarshal r raw).res = .ok () ∧ tccSpec.decode raw = some (tccUnmarshal r raw).st) ∧
+    (∀ r raw, raw.length < 2 → (tccUnmarshal r raw).res.isErr = true ∧ (tccUnmarshal r raw).st = r) ∧
+    (∀ r raw, (tccUnmarshal r raw).res ≠ .panic) ∧
+    (∀ s r, tccUnmarshal r (render [(16, s.toNat)]) = ⟨.ok (), ⟨s⟩⟩) := by
+  have V := c17_tcc_verified
+  refine ⟨?_, ?_, ?_, ?_, ?_⟩
+  · intro s; exact V.layout ⟨s⟩ rfl
+  · intro r r' raw h
+    cases hd : tccSpec.decode raw with
+    | none => exact absurd ((tcc_decode_none raw).mp hd) (by omega)
+    | some v =>
+      have h1 := V.decodes r raw v hd
+      have h2 := V.decodes r' (raw.take 2) v (by rw [← tcc_decode_take raw h]; exact hd)
+      simp only [tcc] at h1 h2
+      simp [h1, h2]
+  · intro r raw h
+    match raw, h with
+    | [], _ => simp [tccUnmarshal, Res.isErr]
+    | [_], _ => simp [tccUnmarshal, Res.isErr]
+  · intro r raw; exact V.unmarshal_total r raw
+  · intro s r; exact V.roundtrip ⟨s⟩ r rfl rfl
+
+theorem c17_playout_spelled :
+    (∀ a b, a ≤ 4095 → b ≤ 4095 → playoutMarshal ⟨a, b⟩ = .ok (render [(12, a.toNat), (12, b.toNat)])) ∧
+    (∀ a b, a > 4095 ∨ b > 4095 → (playoutMarshal ⟨a, b⟩).isErr = true) ∧
+    (∀ r r' raw, 3 ≤ raw.length → playoutUnmarshal r raw = playoutUnmarshal r' (raw.take 3) ∧
+        (playoutUnmarshal r raw).res = .ok () ∧ playoutSpec.decode raw = some (playoutUnmarshal r raw).st) ∧
+    (∀ r raw, raw.length < 3 → (playoutUnmarshal r raw).res.isErr = true ∧ (playoutUnmarshal r raw).st = r) ∧
+    (∀ r raw, (playoutUnmarshal r raw).res ≠ .panic) ∧
+    (∀ a b r, a ≤ 4095 → b ≤ 4095 →
+        playoutUnmarshal r (render [(12, a.toNat), (12, b.toNat)]) = ⟨.ok (), ⟨a, b⟩⟩) := by
+  have V := c17_playout_verified
+  refine ⟨?_, ?_, ?_, ?_, ?_, ?_⟩
+  · intro a b h1 h2; exact V.layout ⟨a, b⟩ (by simp [playoutSpec, h1, h2])
+  · intro a b h
+    apply V.rejects_range ⟨a, b⟩
+    rcases h with h | h
+    · simp [playoutSpec, UInt16.not_le.mpr h]
+    · simp [playoutSpec, UInt16.not_le.mpr h]
+  · intro r r' raw h
+    cases hd : playoutSpec.decode raw with
+    | none => exact absurd ((playout_decode_none raw).mp hd) (by omega)
+    | some v =>
+      have h1 := V.decodes r raw v hd
+      have h2 := V.decodes r' (raw.take 3) v (by rw [← playout_decode_take raw h]; exact hd)
+      simp only [playout] at h1 h2
+      simp [h1, h2]
+  · intro r raw h
+    match raw, h with
+    | [], _ => simp [playoutUnmarshal, Res.isErr]
+    | [_], _ => simp [playoutUnmarshal, Res.isErr]
+    | [_, _], _ => simp [playoutUnmarshal, Res.isErr]
+  · intro r raw; exact V.unmarshal_total r raw
+  · intro a b r h1 h2
+    exact V.roundtrip ⟨a, b⟩ r (by simp [playoutSpec, h1, h2]) (by simp [playoutSpec, h1, h2])
+
+theorem c17_abssend_spelled :
+    (∀ t, absSendMarshal ⟨t⟩ = .ok (render [(24, t.toNat % 2 ^ 24)])) ∧
+    (∀ r r' raw, 3 ≤ raw.length → absSendUnmarshal r raw = absSendUnmarshal r' (raw.take 3) ∧
+        (absSendUnmarshal r raw).res = .ok () ∧ absSendSpec.decode raw = some (absSendUnmarshal r raw).st) ∧
+    (∀ r raw, raw.length < 3 → (absSendUnmarshal r raw).res.isErr = true ∧ (absSendUnmarshal r raw).st = r) ∧
+    (∀ r raw, (absSendUnmarshal r raw).res ≠ .panic) ∧
+    (∀ t r, t < 16777216 → absSendUnmarshal r (render [(24, t.toNat % 2 ^ 24)]) = ⟨.ok (), ⟨t⟩⟩) := by
+  have V := c17_abssend_verified
+  refine ⟨?_, ?_, ?_, ?_, ?_⟩
+  · intro t; exact V.layout ⟨t⟩ rfl
+  · intro r r' raw h
+    cases hd : absSendSpec.decode raw with
+    | none => exact absurd ((absSend_decode_none raw).mp hd) (by omega)
+    | some v =>
+      have h1 := V.decodes r raw v hd
+      have h2 := V.decodes r' (raw.take 3) v (by rw [← absSend_decode_take raw h]; exact hd)
+      simp only [absSend] at h1 h2
+      simp [h1, h2]
+  · intro r raw h
+    match raw, h with
+    | [], _ => simp [absSendUnmarshal, Res.isErr]
+    | [_], _ => simp [absSendUnmarshal, Res.isErr]
+    | [_, _], _ => simp [absSendUnmarshal, Res.isErr]
+  · intro r raw; exact V.unmarshal_total r raw
+  · intro t r h; exact V.roundtrip ⟨t⟩ r rfl (by simpa [absSendSpec] using h)
+
+theorem c17_abscapture_spelled :
+    (∀ t, absCaptureMarshal ⟨t, none⟩ = .ok (render [(64, t.toNat)])) ∧
+    (∀ t o, absCaptureMarshal ⟨t, some o⟩ = .ok (render [(64, t.toNat), (64, (o.toInt % 2 ^ 64).toNat)])) ∧
+    (∀ r r' raw, 16 ≤ raw.length → absCaptureUnmarshal r raw = absCaptureUnmarshal r' (raw.take 16) ∧
+        (absCaptureUnmarshal r raw).res = .ok () ∧ (absCaptureUnmarshal r raw).st.off.isSome = true ∧
+        absCaptureSpec.decode raw = some (absCaptureUnmarshal r raw).st) ∧
+    (∀ r r' raw, 8 ≤ raw.length → raw.length < 16 → absCaptureUnmarshal r raw = absCaptureUnmarshal r' (raw.take 8) ∧
+        (absCaptureUnmarshal r raw).res = .ok () ∧ (absCaptureUnmarshal r raw).st.off = none ∧
+        absCaptureSpec.decode raw = some (absCaptureUnmarshal r raw).st) ∧
+    (∀ r raw, raw.length < 8 → (absCaptureUnmarshal r raw).res.isErr = true ∧ (absCaptureUnmarshal r raw).st = r) ∧
+    (∀ r raw, (absCaptureUnmarshal r raw).res ≠ .panic) ∧
+    (∀ v r, absCaptureUnmarshal r (render (absCaptureTime v.ts.toNat (v.off.map (·.toInt)))) = ⟨.ok (), v⟩) := by
+  have V := c17_abscapture_verified
+  refine ⟨?_, ?_, ?_, ?_, ?_, ?_, ?_⟩
+  · intro t; exact V.layout ⟨t, none⟩ rfl
+  · intro t o; exact V.layout ⟨t, some o⟩ rfl
+  · intro r r' raw h
+    cases hd : absCaptureSpec.decode raw with
+    | none => exact absurd ((absCapture_decode_none raw).mp hd) (by omega)
+    | some v =>
+      have h1 := V.decodes r raw v hd
+      have h2 := V.decodes r' (raw.take 16) v (by rw [← absCapture_decode_take16 raw h]; exact hd)
+      simp only [absCapture] at h1 h2
+      have h3 : v.off.isSome = true := by
+        have a1 : ¬ raw.length < 8 := by omega
+        have a2 : ¬ raw.length < 16 := by omega
+        simp only [absCaptureSpec, parse, split, a1, a2, if_false] at hd
+        cases hd; rfl
+      simp [h1, h2, h3]
+  · intro r r' raw h h'
+    cases hd : absCaptureSpec.decode raw with
+    | none => exact absurd ((absCapture_decode_none raw).mp hd) (by omega)
+    | some v =>
+      have h1 := V.decodes r raw v hd
+      have h2 := V.decodes r' (raw.take 8) v (by rw [← absCapture_decode_take8 raw h h']; exact hd)
+      simp only [absCapture] at h1 h2
+      have h3 : v.off = none := by
+        have a1 : ¬ raw.length < 8 := by omega
+        simp only [absCaptureSpec, parse, split, a1, h', if_false, if_true] at hd
+        cases hd; rfl
+      simp [h1, h2, h3]
+  · intro r raw h
+    match raw, h with
+    | [], _ => simp [absCaptureUnmarshal, Res.isErr]
+    | [_], _ => simp [absCaptureUnmarshal, Res.isErr]
+    | [_, _], _ => simp [absCaptureUnmarshal, Res.isErr]
+    | [_, _, _], _ => simp [absCaptureUnmarshal, Res.isErr]
+    | [_, _, _, _], _ => simp [absCaptureUnmarshal, Res.isErr]
+    | [_, _, _, _, _], _ => simp [absCaptureUnmarshal, Res.isErr]
+    | [_, _, _, _, _, _], _ => simp [absCaptureUnmarshal, Res.isErr]
+    | [_, _, _, _, _, _, _], _ => simp [absCaptureUnmarshal, Res.isErr]
+  · intro r raw; exact V.unmarshal_total r raw
+  · intro v r; exact V.roundtrip v r rfl rfl
+
 end Rtp.Props.C17
